@@ -814,6 +814,9 @@ class World(object):
             oracles.check_handles(self, rec)
         elif op["what"] == "attr_primal":
             oracles.check_attr_primal(self, rec)
+        elif op["what"] == "class_descriptor":
+            from sim import machines
+            machines.class_descriptor(self, rec)
         elif op["what"] == "partition_relations":
             from sim import machines
             machines.check_partition_relations(self, rec)
@@ -922,6 +925,9 @@ class World(object):
         if self.oracles:
             from sim import oracles
             oracles.after_solve(self, rec)
+            if "pattern" in self.oracles and rec.caps:
+                from sim import machines
+                machines.check_pattern(self, rec)
         return out
 
     # ---- cross-invariant: operands never change their meaning ----------------------------------------
